@@ -9,12 +9,12 @@ From Gosk Require Import Base.Bytes Model.Eval Model.Asm Spec.Branch Generated.T
 Import ListNotations.
 Local Open Scope Z_scope.
 
-Theorem C04_jmp_short : forall m addr dest rest, let rel := dest - addr in -126 <= rel <= 127 ->
+Theorem C04_jmp_short : forall m addr dest rest, let rel := dest - addr in -126 <= rel <= 129 ->
   lands m BJmp addr dest (gen_jmp m rel) rest.
 Proof. exact jmp_short_lands. Qed.
 Print Assumptions C04_jmp_short.
 
-Theorem C04_jcc_short : forall m opc addr dest rest, In opc jcc_opcodes -> let rel := dest - addr in -126 <= rel <= 127 ->
+Theorem C04_jcc_short : forall m opc addr dest rest, In opc jcc_opcodes -> let rel := dest - addr in -126 <= rel <= 129 ->
   lands m (BJcc (opc - 112)) addr dest (gen_jcc opc rel) rest.
 Proof. exact jcc_short_lands. Qed.
 Print Assumptions C04_jcc_short.
@@ -25,7 +25,7 @@ Proof. exact call16_lands. Qed.
 Print Assumptions C04_call16.
 
 Theorem C04_jmp16_near : forall addr dest rest, let rel := dest - addr in
-  -32768 <= rel <= 32767 -> ~ (-128 <= rel <= 127) -> -32768 <= rel - 3 ->
+  -32768 <= rel - 2 <= 32767 -> ~ (-128 <= rel - 2 <= 127) -> -32768 <= rel - 3 ->
   lands M16 BJmp addr dest (gen_jmp M16 rel) rest.
 Proof. exact jmp16_near_lands. Qed.
 Print Assumptions C04_jmp16_near.
@@ -37,11 +37,19 @@ Theorem C04_cc_table : forall n, In n jcc_names ->
 Proof. exact cc_table_sound. Qed.
 Print Assumptions C04_cc_table.
 
-Theorem C04_jmp_short_refuted_at_boundary : exists addr dest,
-  let rel := dest - addr in -128 <= rel <= 127 /\
-  forall b, decode_branch B16 (gen_jmp M16 rel) = Some b -> landing addr b <> dest mod 2 ^ 16.
-Proof. exact jmp_short_refuted. Qed.
-Print Assumptions C04_jmp_short_refuted_at_boundary.
+(** after fix e07e6de in /repo the rel8 form is chosen exactly when its displacement fits, so [C04_jmp_short]
+    and [C04_jmp16_near] together cover every rel with -32767 <= rel - 2 <= 32767 in 16-bit mode; the former
+    refutation at the backward boundary (targets 127/128 bytes before the jump) is replaced by: *)
+Theorem C04_jmp_backward_boundary : forall addr rest,
+  lands M16 BJmp addr (addr - 128) (gen_jmp M16 (-128)) rest /\ lands M16 BJmp addr (addr - 127) (gen_jmp M16 (-127)) rest.
+Proof. exact jmp_backward_boundary_lands. Qed.
+Print Assumptions C04_jmp_backward_boundary.
+
+(** every 16-bit JMP whose displacement fits 16 bits lands, whichever form is chosen *)
+Theorem C04_jmp16_total : forall addr dest rest, let rel := dest - addr in -32767 <= rel - 2 <= 32767 ->
+  lands M16 BJmp addr dest (gen_jmp M16 rel) rest.
+Proof. exact jmp16_total_lands. Qed.
+Print Assumptions C04_jmp16_total.
 
 Example C04_nonvacuous : lands M16 BJmp 31744 31750 (gen_jmp M16 6) [171].
 Proof. apply (jmp_short_lands M16 31744 31750 [171]). cbn. split; discriminate. Qed.
